@@ -224,37 +224,33 @@ example : (writeToPipe { fromNode := 0, toNode := 1, frameId := 7, msgType := .i
   decide
 
 /-- after `write()` (any node, any configuration, any header and message for which it returns) the
-    caller's header shows the type it had before; when the message was fragmented its `reserved`
-    attribute is left at the message type (the code restores only the type — observation, not part
-    of the property) -/
+    caller's header shows the type it had before — and every other field except `from_node`, which
+    `write()` sets to the node's address: since the fix "write() of a routed message let the
+    awaited NETWORK_ACK overwrite the caller's frame" the node works on a private copy, so neither
+    the fragment loop nor frames received while waiting for a NETWORK_ACK reach the caller's frame -/
 theorem C11_type_restored (n : NodeAddr) (maxLen : Nat) (fe : Bool) (h : Header) (msg : Bytes)
-    (w : WriteOut) (hw : netWrite n maxLen fe h msg = .ok w) : w.header.msgType = h.msgType := by
+    (w : WriteOut) (hw : netWrite n maxLen fe h msg = .ok w) :
+    w.header.msgType = h.msgType ∧ w.header = { h with fromNode := n.addr } := by
   unfold netWrite at hw
   by_cases hv : (!isValid h.toNode) = true
   · simp [hv, bind, Except.bind, throw, throwThe, MonadExceptOf.throw] at hw
   · cases hl : validateMsgLen maxLen fe msg.length with
     | error e => simp [hv, hl, bind, Except.bind, pure, Except.pure] at hw
     | ok okLen =>
-      cases hm : h.msgType with
-      | str cs =>
-        simp [hv, hl, hm, bind, Except.bind, pure, Except.pure, throw, throwThe,
-          MonadExceptOf.throw] at hw
-      | int t =>
-        simp only [hv, hl, hm, bind, Except.bind, pure, Except.pure, Bool.false_eq_true,
-          ↓reduceIte] at hw
-        split at hw
-        · injection hw with hw; subst hw; rfl
+      simp only [hv, hl, bind, Except.bind, pure, Except.pure, Bool.false_eq_true, ↓reduceIte] at hw
+      split at hw
+      · cases hw
+      · split at hw
+        · injection hw with hw; subst hw; exact ⟨rfl, rfl⟩
         · split at hw
           · cases hw
-          · rename_i p hp
-            injection hw with hw; subst hw
-            exact writeToPipe_type _ t _ rfl p hp
+          · injection hw with hw; subst hw; exact ⟨rfl, rfl⟩
 
 /-- non-vacuity: the master sends 30 bytes of type 65 to node 0o1: two frames, the caller's header
-    shows type 65 again (and `reserved` is left at 65) -/
+    is exactly what it was (with `from_node` filled in) -/
 example : ((netWrite ⟨0, 0, 0, 0xFFFF, 0, 0⟩ 144 true ⟨0o7777, 1, 3, .int 65, 0⟩
     (List.replicate 30 1)).toOption.map fun w => (w.frames.length, w.header))
-    = some (2, ⟨0, 1, 3, .int 65, 65⟩) := by
+    = some (2, ⟨0, 1, 3, .int 65, 0⟩) := by
   have hv : isValid 1 = true := by
     simp [isValid, isValidGo, NETWORK_MULTICAST_ADDR, NETWORK_MULTICAST_ADDR_LVL_2,
       NETWORK_MULTICAST_ADDR_LVL_4, VALID_DIGIT_LIMIT]
